@@ -38,52 +38,106 @@ func (rn *runner) runCLIPhase(scratch string, all []worldItem) {
 		defer os.RemoveAll(dir)
 		sels := selections(w, it.cliMode, false)
 		for _, sel := range sels {
-			sel := sel
-			args := []string{"build", filepath.Join(dir, filepath.FromSlash(sel.SubDir)), "-o", "-#format=binpb"}
-			for _, p := range sel.Paths {
-				args = append(args, "--path", filepath.Join(dir, filepath.FromSlash(p)))
-			}
-			for _, e := range sel.Excludes {
-				args = append(args, "--exclude-path", filepath.Join(dir, filepath.FromSlash(e)))
-			}
-			res := bufx.RunCLI(rn.ctx, nil, "", args...)
-			r.Eval(1)
-			cnt.add("cli_builds", 1)
-			mkCase := func() any { return Case{Phase: "cli", Spec: it.spec, Selection: &sel, Files: files, World: infoOf(w)} }
-			targets := refTargets(w, sel)
-			if res.ExitCode != 0 {
-				switch {
-				case len(targets) == 0:
-					cnt.add("cli_outcome_error_no_targets", 1)
-				case selectionMayBeRejected(w, sel):
-					cnt.add("cli_outcome_selection_rejected", 1)
-				default:
-					r.Violate("cli/build/unexpected-exit", fmt.Sprintf("%s: reference targets %v compile directly, `buf build` exit %d stderr %q", sel, targets, res.ExitCode, res.Stderr), mkCase())
-				}
-				if len(res.Stdout) != 0 {
-					r.Violate("cli/build/output-on-failure", fmt.Sprintf("%s: exit %d but %d bytes on stdout", sel, res.ExitCode, len(res.Stdout)), mkCase())
-				}
-				continue
-			}
-			if len(targets) == 0 {
-				r.Violate("cli/build/image-without-targets", fmt.Sprintf("%s: nothing is targeted according to the reference model, `buf build` exit 0", sel), mkCase())
-				continue
-			}
-			obs, err := observeWire([]byte(res.Stdout))
-			if err != nil {
-				r.Violate("cli/build/undecodable-output", fmt.Sprintf("%s: %v", sel, err), mkCase())
-				continue
-			}
-			cnt.add("cli_images", 1)
-			direct := directFor(targets)
-			if direct == nil {
-				continue
-			}
-			exp := &expectation{world: w, targets: targets, direct: direct}
-			report(r, checkImage("cli", exp, obs, cnt), mkCase())
-			if len(obs) >= 2 {
-				r.Distinct("cli|" + specKey(it.spec) + "|" + sel.String())
-			}
+			rn.cliOne("cli", it.spec, specKey(it.spec), w, files, dir, sel, "binpb", directFor, cnt)
 		}
+		// output format dimension: the plain build of the workspace root once more in one of the text encodings (rotating),
+		// decoded with a resolver made from the bare compiler's descriptors
+		rn.cliOne("cli", it.spec, specKey(it.spec), w, files, dir, Selection{SubDir: "."}, textFormats[i%len(textFormats)], directFor, cnt)
 	})
+}
+
+var textFormats = []string{"json", "txtpb", "yaml"}
+
+// cliArgs is the command line of one selection: `buf build <input> -o -#format=<format> [--path p] [--exclude-path e]`.
+func cliArgs(dir string, sel Selection, format string) []string {
+	input := filepath.Join(dir, filepath.FromSlash(sel.SubDir))
+	if sel.ProtoFile != "" {
+		input = filepath.Join(dir, filepath.FromSlash(sel.ProtoFile))
+		if sel.IncludePkg {
+			input += "#include_package_files=true"
+		}
+	}
+	args := []string{"build", input, "-o", "-#format=" + format}
+	for _, p := range sel.Paths {
+		args = append(args, "--path", filepath.Join(dir, filepath.FromSlash(p)))
+	}
+	for _, e := range sel.Excludes {
+		args = append(args, "--exclude-path", filepath.Join(dir, filepath.FromSlash(e)))
+	}
+	return args
+}
+
+// cliPoint names the observation point of an output format in signatures ("cli" is the binary encoding).
+func cliPoint(format string) string {
+	if format == "binpb" {
+		return "cli"
+	}
+	return "cli-" + format
+}
+
+// cliOne runs one selection of a world written to dir through `buf build` with one output format and judges the outcome.
+func (rn *runner) cliOne(phase string, spec *Spec, wkey string, w *World, files map[string]string, dir string, sel Selection, format string, directFor func([]string) *Direct, cnt counters) {
+	r := rn.r
+	point := cliPoint(format)
+	res := bufx.RunCLI(rn.ctx, nil, "", cliArgs(dir, sel, format)...)
+	r.Eval(1)
+	cnt.add("cli_builds", 1)
+	mkCase := func() any {
+		c := Case{Phase: phase, Spec: spec, Selection: &sel, Files: files, World: infoOf(w), Format: format}
+		if spec == nil {
+			c.Note = wkey
+		}
+		return c
+	}
+	targets := refTargets(w, sel)
+	if res.ExitCode != 0 {
+		switch {
+		case len(targets) == 0:
+			cnt.add("cli_outcome_error_no_targets", 1)
+		case selectionMayBeRejected(w, sel):
+			cnt.add("cli_outcome_selection_rejected", 1)
+		default:
+			r.Violate(point+"/build/unexpected-exit", fmt.Sprintf("%s: reference targets %v compile directly, `buf build` exit %d stderr %q", sel, targets, res.ExitCode, res.Stderr), mkCase())
+		}
+		if len(res.Stdout) != 0 {
+			r.Violate(point+"/build/output-on-failure", fmt.Sprintf("%s: exit %d but %d bytes on stdout", sel, res.ExitCode, len(res.Stdout)), mkCase())
+		}
+		return
+	}
+	if len(targets) == 0 {
+		r.Violate(point+"/build/image-without-targets", fmt.Sprintf("%s: nothing is targeted according to the reference model, `buf build` exit 0", sel), mkCase())
+		return
+	}
+	direct := directFor(targets)
+	if direct == nil {
+		return
+	}
+	exp := &expectation{world: w, targets: targets, direct: direct}
+	var obs []obsFile
+	var err error
+	if format == "binpb" {
+		obs, err = observeWire([]byte(res.Stdout))
+	} else {
+		obs, exp.canon, err = observeText(format, []byte(res.Stdout), direct)
+	}
+	if err != nil {
+		r.Violate(point+"/build/undecodable-output", fmt.Sprintf("%s: %v", sel, err), mkCase())
+		return
+	}
+	cnt.add("cli_images", 1)
+	if format != "binpb" {
+		cnt.add("cli_images_"+format, 1)
+	}
+	vs := checkImage(point, exp, obs, cnt)
+	if sel.ProtoFile != "" {
+		vs = rn.protoFileAlternative(point, exp, sel, obs, vs, directFor, cnt)
+	}
+	report(r, vs, mkCase())
+	if len(obs) >= 2 {
+		key := phase + "|" + wkey + "|" + sel.String()
+		if format != "binpb" {
+			key += "|" + format
+		}
+		r.Distinct(key)
+	}
 }
